@@ -235,19 +235,20 @@ def write_hash_list(hash_list: MHLHashList, file_path: str):
     # write process info
     _write_xml_element_to_file(file, _process_info_xml_element(hash_list), "  ")
 
-    # write hashes
-    hashes_tag = "<hashes>\n"
-    _write_xml_string_to_file(file, hashes_tag, current_indent)
-    current_indent += "  "
+    # write hashes, the optional section must not be empty according to the xsd
+    if len(hash_list.media_hashes) > 0:
+        hashes_tag = "<hashes>\n"
+        _write_xml_string_to_file(file, hashes_tag, current_indent)
+        current_indent += "  "
 
-    for media_hash in hash_list.media_hashes:
-        if media_hash.is_directory:
-            _write_xml_element_to_file(file, _directory_hash_xml_element(media_hash), current_indent)
-        else:
-            _write_xml_element_to_file(file, _media_hash_xml_element(media_hash), current_indent)
+        for media_hash in hash_list.media_hashes:
+            if media_hash.is_directory:
+                _write_xml_element_to_file(file, _directory_hash_xml_element(media_hash), current_indent)
+            else:
+                _write_xml_element_to_file(file, _media_hash_xml_element(media_hash), current_indent)
 
-    current_indent = current_indent[:-2]
-    _write_xml_string_to_file(file, "</hashes>\n", current_indent)
+        current_indent = current_indent[:-2]
+        _write_xml_string_to_file(file, "</hashes>\n", current_indent)
 
     # only write the optional references section if there are actually some references
     if len(hash_list.referenced_hash_lists) > 0:
